@@ -11,6 +11,21 @@ CHECKS = {
  'C05': ('cfgx', 'exhaustive enumeration of every block header of every built profile over all (none, complain, enforce) build triples of the real prebuild binary, plus every generated header layout of a small alphabet through the real builders; independent block scanner as oracle',
          'All 60 (distribution, ABI, version, full) triples of builds are produced by the real binary in the thorough tier and every block header is compared between modes; 5580 generated header layouts (main flags x attachment x 0-2 sub-profiles x 0-1 hat) go through the real Complain/Enforce builders.',
          'block scanner of engine/scan.py; flags compared as sets, remaining header tokens compared token by token', 'DESIGN.md §4 C05'),
+ 'C01': ('cfgx', 'explicit enumeration of all build configurations of the real prebuild binary x every output profile, each parsed (thorough: also compiled) by the reference apparmor_parser',
+         'All 180 configurations are built by the real binary in the thorough tier and every profile of every tree is read by apparmor_parser 3.0.8 over an overlay of the upstream policy directory; quick covers a pairwise covering array of the 5 factors plus the Makefile entry points.',
+         'apparmor_parser 3.0.8 as reference; stand-ins for ABI 4 / version 4.1 as stated in DESIGN.md §2', 'DESIGN.md §4 C01'),
+ 'C02': ('cfgx+mapx', 'deviation-bounded DFS over owned Go map iteration starts (runtime overlay) on whole builds; exhaustive build-directory histories up to depth 3; exhaustive in-process operation sequences up to length 3 plus state-keyed BFS to depth 6, all on the real prebuild code',
+         'Every (bucket, offset) start the runtime can pick at every map range of repo code is enumerated one deviation at a time (two inside package directive); every prior state of .build from a stated alphabet; every sequence of directive hosts of length <= 3 in one process, each step compared with the fresh-process text.',
+         'instrumented runtime (fixed hash keys per VERIF_MAPX_SEED, owned iteration start); plain and instrumented binaries are compared on probe configurations', 'DESIGN.md §4 C02'),
+ 'C04': ('cfgx', 'explicit enumeration of (configuration x prior build-directory state) with the real prepare stage (prepare-only mode of the instrumented binary), compared with an independently written reference model of the expected listing and content',
+         'The state after cli.Prepare() is compared entry by entry and byte by byte with a reference model computed from the source tree and the manifests, for all 60 (dist, ABI, version, full) configurations and the prior states clean / junk / after(p).',
+         'reference model in engine/props/c04.py written from the documentation', 'DESIGN.md §4 C04'),
+ 'C08': ('cfgx+scan', 'explicit enumeration of every reference of every built file in every (dist, ABI, version, full) build tree of the real binary, resolved against the definition set of the same tree',
+         'All 60 trees in the thorough tier; the reference alphabet (exec targets, change_profile, stacks, drop-ins, variables, directive/manifest names) is fully enumerated from the built text by an independent tokenizer.',
+         'AppArmor name resolution as stated in the evidence assumptions; upstream profiles count as defined', 'DESIGN.md §4 C08'),
+ 'C19': ('scan', 'complete enumeration of the finite set of shipped profile and abstraction files; every file also goes through the real userspace builder',
+         'The quantifier domain is the shipped tree itself: all 1552 profile files and 129 abstractions are checked against the layout contract by an independent scanner, and the real userspace builder must accept every one.',
+         'independent scanner, not tests/check.sh', 'DESIGN.md §4 C19'),
 }
 PENDING = {}
 def main():
